@@ -227,20 +227,88 @@ Definition ws_read_first (useg : list str) : outcome (option (str * list str)) :
 Definition ws_first_chunk_unrepaired (useg1 : str) : str := firstn 1024 useg1.
 Definition ws_upgraded_unrepaired (useg1 : str) : bool := has_prefix (ws_first_chunk_unrepaired useg1) ws_101.
 
-(* ---------- "the first finished direction ends the tunnel" (tcp_proxy.go:78-90) ----------
+Inductive dir := C2U | U2C.
+
+(* ---------- the tunnel (proxy/tcp/tunnel.go since fix commit e0f2d05; inline in ws_handler.go) ----------
+   Two copiers.  A copier moves one chunk per step (Read then Write).  When its source reports
+   EOF it closes the WRITE side of its destination: if that connection can be closed for writing
+   only the direction is done cleanly ([Some true]) and the other one keeps copying; otherwise
+   it reports io.EOF ([Some false]).  tunnel() returns - and both connections are closed - as
+   soon as a direction reports non-nil, or when both are done cleanly.  [h_cw_out]/[h_cw_in]:
+   the upstream / client connection supports CloseWrite (the dialled *net.TCPConn does; the
+   client side is whatever the listener hands in).  Write errors end the tunnel at once and
+   appear only as the cut cases of the scenario analysis below. *)
+Record hstate := {
+  h_c_todo : list str;  h_c_eof : bool;  h_c_done : str;  h_c_fin : option bool;
+  h_u_todo : list str;  h_u_eof : bool;  h_u_done : str;  h_u_fin : option bool;
+  h_cw_out : bool;  h_cw_in : bool
+}.
+
+Definition h_ended (s : hstate) : bool :=
+  match h_c_fin s, h_u_fin s with
+  | Some false, _ => true
+  | _, Some false => true
+  | Some true, Some true => true
+  | _, _ => false
+  end.
+
+Definition hstep (d : dir) (s : hstate) : hstate :=
+  if h_ended s then s else
+  match d with
+  | C2U =>
+      match h_c_fin s with
+      | Some _ => s
+      | None =>
+        match h_c_todo s with
+        | ch :: rest =>
+            {| h_c_todo := rest; h_c_eof := h_c_eof s; h_c_done := h_c_done s ++ ch; h_c_fin := None;
+               h_u_todo := h_u_todo s; h_u_eof := h_u_eof s; h_u_done := h_u_done s; h_u_fin := h_u_fin s;
+               h_cw_out := h_cw_out s; h_cw_in := h_cw_in s |}
+        | [] => if h_c_eof s then
+            {| h_c_todo := []; h_c_eof := true; h_c_done := h_c_done s; h_c_fin := Some (h_cw_out s);
+               h_u_todo := h_u_todo s; h_u_eof := h_u_eof s; h_u_done := h_u_done s; h_u_fin := h_u_fin s;
+               h_cw_out := h_cw_out s; h_cw_in := h_cw_in s |}
+            else s
+        end
+      end
+  | U2C =>
+      match h_u_fin s with
+      | Some _ => s
+      | None =>
+        match h_u_todo s with
+        | ch :: rest =>
+            {| h_c_todo := h_c_todo s; h_c_eof := h_c_eof s; h_c_done := h_c_done s; h_c_fin := h_c_fin s;
+               h_u_todo := rest; h_u_eof := h_u_eof s; h_u_done := h_u_done s ++ ch; h_u_fin := None;
+               h_cw_out := h_cw_out s; h_cw_in := h_cw_in s |}
+        | [] => if h_u_eof s then
+            {| h_c_todo := h_c_todo s; h_c_eof := h_c_eof s; h_c_done := h_c_done s; h_c_fin := h_c_fin s;
+               h_u_todo := []; h_u_eof := true; h_u_done := h_u_done s; h_u_fin := Some (h_cw_in s);
+               h_cw_out := h_cw_out s; h_cw_in := h_cw_in s |}
+            else s
+        end
+      end
+  end.
+
+Definition hrun (sched : list dir) (s : hstate) : hstate := fold_left (fun s d => hstep d s) sched s.
+
+Definition hinit (c : list str) (ceof : bool) (u : list str) (ueof : bool) (cw_out cw_in : bool) : hstate :=
+  {| h_c_todo := c; h_c_eof := ceof; h_c_done := []; h_c_fin := None;
+     h_u_todo := u; h_u_eof := ueof; h_u_done := []; h_u_fin := None; h_cw_out := cw_out; h_cw_in := cw_in |}.
+
+(* ---------- the unrepaired tunnel (before e0f2d05), kept only for C09_half_close_reply_refuted:
+   "the first finished direction ends the tunnel" (tcp_proxy.go:78-90 of that time) ----------
    Two copiers.  A copier moves one chunk per step (Read then Write); when its source
    reports EOF it finishes and ServeTCP returns, closing both connections: nothing
    moves afterwards.  A schedule is the order in which the copiers get to run.
    [t_*_eof]: the source ends with EOF (closed / half-closed peer) rather than
    staying silent. *)
-Inductive dir := C2U | U2C.
 Record tstate := {
   t_c_todo : list str;  t_c_eof : bool;  t_c_done : str;
   t_u_todo : list str;  t_u_eof : bool;  t_u_done : str;
   t_ended : option dir
 }.
 
-Definition tstep (d : dir) (s : tstate) : tstate :=
+Definition tstep_unrepaired (d : dir) (s : tstate) : tstate :=
   match t_ended s with
   | Some _ => s
   | None =>
@@ -268,10 +336,18 @@ Definition tstep (d : dir) (s : tstate) : tstate :=
     end
   end.
 
-Definition trun (sched : list dir) (s : tstate) : tstate := fold_left (fun s d => tstep d s) sched s.
+Definition trun_unrepaired (sched : list dir) (s : tstate) : tstate := fold_left (fun s d => tstep_unrepaired d s) sched s.
 
-Definition tinit (c : list str) (ceof : bool) (u : list str) (ueof : bool) : tstate :=
+Definition tinit_unrepaired (c : list str) (ceof : bool) (u : list str) (ueof : bool) : tstate :=
   {| t_c_todo := c; t_c_eof := ceof; t_c_done := []; t_u_todo := u; t_u_eof := ueof; t_u_done := []; t_ended := None |}.
+
+(* proxy/tcp/server.go: the tcp handlers get the server's timeout wrapper around the accepted
+   connection.  Since fix commit ad209fd the wrapper has a CloseWrite which delegates: it can be
+   closed for writing iff the accepted connection can (net.TCPConn and tls.Conn can; the Conn
+   of github.com/armon/go-proxyproto - listeners with pxyproto=true - cannot).  Before, it never
+   could, whatever it wrapped. *)
+Definition wrapper_cw (inner_cw : bool) : bool := inner_cw.
+Definition wrapper_cw_unrepaired (inner_cw : bool) : bool := false.
 
 (* ---------- the scripted scenarios of the correspondence run ----------
    client: sends its segments, optionally waits until it has received the whole
@@ -280,48 +356,74 @@ Definition tinit (c : list str) (ceof : bool) (u : list str) (ueof : bool) : tst
    then stays or closes. *)
 Inductive cend := CStay | CHalf | CClose.
 Inductive utrig := UAtConnect | UAfterBytes (n : N) | UOnEOF.
-Inductive uend := UStay | UClose.
+(* the upstream, after its output: keeps reading and closes when it has seen EOF / closes at
+   once / half-closes (CloseWrite) and keeps reading until EOF, then closes *)
+Inductive uend := UStay | UClose | UHalf.
 
-(* what must arrive given the forced order of events: each direction delivers a
-   prefix of its full stream whose length lies in [lo, hi] *)
+(* what must arrive given the forced order of events: each direction delivers a prefix of its
+   full stream whose length lies in [lo, hi]; [e_ends]: the tunnel returns on its own
+   (Some true), keeps running until the harness stops it (Some false), or either (None: the
+   kernel decides) *)
 Record expectation := {
   e_conn : bool;
   e_up : str; e_up_lo : N;              (* hi = whole stream *)
-  e_cl : str; e_cl_lo : N; e_cl_hi : N
+  e_cl : str; e_cl_lo : N; e_cl_hi : N;
+  e_ends : option bool;
+  e_cl_eof : option bool   (* the client sees EOF (its connection's write side is closed by the proxy) *)
 }.
 
 Definition nlen' (s : str) : N := N.of_nat (length s).
 
-(* the tunnel phase: [up] = what the upstream gets if the client direction completes,
-   [reply] = the upstream's output *)
-Definition tunnel_expect (up reply : str) (cwait : bool) (ce : cend) (ut : utrig) (ue : uend) : expectation :=
+Definition is_stay (ce : cend) : bool := match ce with CStay => true | _ => false end.
+
+(* the tunnel phase (tunnel.go): [up] = what the upstream gets if the client direction
+   completes, [reply] = the upstream's output, [cw_in] = the client connection supports
+   CloseWrite.
+   - the client's EOF is passed on (CloseWrite on the upstream connection): the upstream sees it,
+     sends what it sends at EOF, closes; that EOF ends the other direction and the tunnel;
+   - [cut_a]: the upstream CLOSES while client bytes may still be on their way: a write to it
+     fails (or its reset is read) and ends the tunnel at once, either direction may be cut;
+   - [cut_b]: the upstream HALF-closes while client bytes may still be on their way and the
+     client connection cannot be closed for writing only: the direction reports io.EOF, the
+     tunnel ends at once, the rest of the client's bytes is not copied (the reply is). *)
+Definition tunnel_expect (up reply : str) (cw_in cerr cwait : bool) (ce : cend) (ut : utrig) (ue : uend) : expectation :=
   let U := nlen' up in
   let R := nlen' reply in
   let early := match ut with UAtConnect => true | UAfterBytes n => n <=? U | UOnEOF => false end in
   let seen := match ut with UAtConnect => 0 | UAfterBytes n => N.min n U | UOnEOF => U end in
   let all_before := seen =? U in
-  (* the upstream closes while client bytes may still be on their way: the write to the
-     closed upstream fails and ends the tunnel, either direction may be cut *)
-  let cut := match ue with UClose => early && negb all_before | UStay => false end in
-  let mk ulo clo chi := {| e_conn := true; e_up := up; e_up_lo := ulo; e_cl := reply; e_cl_lo := clo; e_cl_hi := chi |} in
-  if cut then mk seen 0 R
-  else match ce with
-  | CStay => if early then mk U R R else mk U 0 0
-  | _ =>
-      if cwait then (if early then mk U R R else mk U 0 0)
-      else
-        (* the client's EOF ends the tunnel: the reply is relayed only as far as the
-           race lets it; a reply sent at EOF is never relayed
-           (and when reply bytes are still unread at that moment the kernel resets the
-           upstream connection: client bytes still queued may be discarded as well) *)
-        if early then mk 0 0 R else mk U 0 0
-  end.
+  let cut_a := match ue with UClose => early && negb all_before | _ => false end in
+  let cut_b := match ue with UHalf => early && negb all_before && negb cw_in | _ => false end in
+  (* the client's wait for the whole reply can be satisfied *)
+  let wait_ok := negb cwait || early || (R =? 0) in
+  (* the upstream's output is sent at all *)
+  let sent := match ut with UOnEOF => negb (is_stay ce) && wait_ok | _ => early end in
+  let ulo := if cut_a || cut_b then seen else U in
+  let clb :=
+    if cut_a then (0, R)
+    else if negb sent then (0, 0)
+    else match ce with
+         | CClose => if cwait then (R, R)
+                     else match ut with UOnEOF => (0, 0) | _ => (0, R) end   (* a closed client drops what comes after its EOF *)
+         | _ => (R, R)
+         end in
+  let ends :=
+    if cut_a then (if cw_in && is_stay ce then None else Some true)
+    else Some ((negb (is_stay ce) && wait_ok)
+               || (early && negb cw_in && match ue with UStay => false | _ => true end)) in
+  (* the upstream's direction reaches EOF (it closes or half-closes after its output, or closes
+     when the client's end has reached it) and the client connection can be closed for writing;
+     [cerr]: the client's connection failed instead of ending - the tunnel ends at once *)
+  let cl_eof := if cut_a || cerr then None
+                else Some (cw_in && ((early && match ue with UStay => false | _ => true end)
+                                     || (negb (is_stay ce) && wait_ok))) in
+  {| e_conn := true; e_up := up; e_up_lo := ulo; e_cl := reply; e_cl_lo := fst clb; e_cl_hi := snd clb; e_ends := ends; e_cl_eof := cl_eof |}.
 
 Definition no_tunnel : expectation :=
-  {| e_conn := false; e_up := []; e_up_lo := 0; e_cl := []; e_cl_lo := 0; e_cl_hi := 0 |}.
+  {| e_conn := false; e_up := []; e_up_lo := 0; e_cl := []; e_cl_lo := 0; e_cl_hi := 0; e_ends := Some true; e_cl_eof := Some false |}.
 
 Definition scenario_expect (k : kind) (pp : bool) (line : str) (segs : list str) (fin : N)
-    (cwait : bool) (ce : cend) (ut : utrig) (reply : str) (rseg1 whead : N) (ue : uend) : outcome expectation :=
+    (cw_in cwait : bool) (ce : cend) (ut : utrig) (reply : str) (rseg1 whead : N) (ue : uend) : outcome expectation :=
   match k with
   | KWs =>
       (* the upstream answers the upgrade request at once; unless it also sends its
@@ -333,22 +435,22 @@ Definition scenario_expect (k : kind) (pp : bool) (line : str) (segs : list str)
       do r <- ws_read_first useg;
       match r with
       | None =>        (* error reading handshake: nothing reaches either side *)
-          Ok {| e_conn := true; e_up := []; e_up_lo := 0; e_cl := []; e_cl_lo := 0; e_cl_hi := 0 |}
+          Ok {| e_conn := true; e_up := []; e_up_lo := 0; e_cl := []; e_cl_lo := 0; e_cl_hi := 0; e_ends := Some true; e_cl_eof := Some false |}
       | Some (chunk, _) =>
         if has_prefix chunk ws_101 then
           do c <- copy_buffer segs;
           (* the client sends nothing before it has the whole head: the head always arrives *)
-          let e := tunnel_expect c reply cwait ce ut ue in
+          let e := tunnel_expect c reply cw_in (1 <? fin) cwait ce ut ue in
           Ok {| e_conn := true; e_up := e_up e; e_up_lo := e_up_lo e; e_cl := e_cl e;
-                e_cl_lo := N.max whead (e_cl_lo e); e_cl_hi := N.max whead (e_cl_hi e) |}
+                e_cl_lo := N.max whead (e_cl_lo e); e_cl_hi := N.max whead (e_cl_hi e); e_ends := e_ends e; e_cl_eof := e_cl_eof e |}
         else
-          Ok {| e_conn := true; e_up := []; e_up_lo := 0; e_cl := chunk; e_cl_lo := nlen' chunk; e_cl_hi := nlen' chunk |}
+          Ok {| e_conn := true; e_up := []; e_up_lo := 0; e_cl := chunk; e_cl_lo := nlen' chunk; e_cl_hi := nlen' chunk; e_ends := Some true; e_cl_eof := Some false |}
       end
   | _ =>
       do u <- upstream_stream_f k pp line segs fin;
       match u with
       | None => Ok no_tunnel
-      | Some up => Ok (tunnel_expect up reply cwait ce ut ue)
+      | Some up => Ok (tunnel_expect up reply cw_in (1 <? fin) cwait ce ut ue)
       end
   end.
 
@@ -373,59 +475,76 @@ Definition tunnelled (k : kind) (stream reply : str) : bool :=
   | _ => true
   end.
 
-(* required deliveries.  [sup] = what a transparent tunnel hands to the upstream.
+(* required deliveries and termination.  [sup] = what a transparent tunnel hands to the upstream.
    [early]: the upstream's output does not depend on the client's end; [all_before]: the upstream
-   has everything before it sends / closes; [safe]: an upstream close cannot cut client bytes
+   has everything before it sends / closes; [safe]: an upstream CLOSE cannot cut client bytes
    that are still on their way (then nothing is demanded beyond prefixes: a peer that closes
-   while data is in flight resets the connection).
+   while data is in flight resets the connection).  An upstream that only half-closes keeps
+   reading: everything must still reach it.
    - the client's stream must arrive completely whenever [safe];
-   - the reply must arrive completely whenever [safe] and: the client stays and the upstream
-     sends; or the client half-closes (it keeps reading) and the upstream sends early or at the
-     EOF which the half-close is (a client that first waits for a reply which is only sent at
-     its EOF never half-closes: nothing demanded); or the client closes after waiting for it. *)
+   - the upstream's output must arrive completely whenever [safe], it is sent at all (early, or at
+     the client's EOF - the half-close is passed on - provided the client gets that far), and the
+     client is still there to receive it (it stays, half-closes, or closes only after waiting);
+   - the tunnel must end by itself once both sides are done: the client ended (the scripted
+     upstream closes when it has seen EOF). *)
 Definition spec_early (U : N) (ut : utrig) : bool :=
   match ut with UAtConnect => true | UAfterBytes n => n <=? U | UOnEOF => false end.
 Definition spec_safe (U : N) (ut : utrig) (ue : uend) : bool :=
   let all_before := match ut with UAtConnect => U =? 0 | UAfterBytes n => n =? U | UOnEOF => true end in
-  match ue with UStay => true | UClose => all_before || negb (spec_early U ut) end.
+  match ue with UClose => all_before || negb (spec_early U ut) | _ => true end.
+Definition spec_wait_ok (U R : N) (cwait : bool) (ut : utrig) : bool :=
+  negb cwait || spec_early U ut || (R =? 0).
 Definition spec_req_up (U : N) (ut : utrig) (ue : uend) : bool := spec_safe U ut ue.
-Definition spec_req_cl (U : N) (cwait : bool) (ce : cend) (ut : utrig) (ue : uend) : bool :=
+Definition spec_req_cl (U R : N) (cwait : bool) (ce : cend) (ut : utrig) (ue : uend) : bool :=
   spec_safe U ut ue &&
-  match ce with
-  | CStay => spec_early U ut
-  | CHalf => spec_early U ut || match ut with UOnEOF => negb cwait | _ => false end
-  | CClose => cwait && spec_early U ut
-  end.
+  match ut with UOnEOF => negb (is_stay ce) && spec_wait_ok U R cwait ut | _ => spec_early U ut end &&
+  match ce with CClose => cwait | _ => true end.
+Definition spec_req_ends (U R : N) (cwait : bool) (ce : cend) (ut : utrig) : bool :=
+  negb (is_stay ce) && spec_wait_ok U R cwait ut.
 
-Definition spec_core (sup reply : str) (cwait : bool) (ce : cend) (ut : utrig) (ue : uend) (o_up o_cl : str) : bool :=
+(* the client must see EOF after the upstream's data when its connection can be closed for
+   writing and the upstream's output has come to an end: the upstream closed or half-closed after
+   it, or both sides are done *)
+Definition spec_req_eof (U R : N) (cw_in cerr cwait : bool) (ce : cend) (ut : utrig) (ue : uend) : bool :=
+  cw_in && negb cerr && spec_safe U ut ue &&
+  ((spec_early U ut && match ue with UStay => false | _ => true end) || spec_req_ends U R cwait ce ut).
+
+Definition spec_core (sup reply : str) (cw_in cerr cwait : bool) (ce : cend) (ut : utrig) (ue : uend)
+    (o_up o_cl : str) (o_ended o_eof : bool) : bool :=
   let U := nlen' sup in
+  let R := nlen' reply in
   is_prefix o_up sup && is_prefix o_cl reply
   && (if spec_req_up U ut ue then beq o_up sup else true)
-  && (if spec_req_cl U cwait ce ut ue then beq o_cl reply else true).
+  && (if spec_req_cl U R cwait ce ut ue then beq o_cl reply else true)
+  && (if spec_req_ends U R cwait ce ut then o_ended else true)
+  && (if spec_req_eof U R cw_in cerr cwait ce ut ue then o_eof else true).
 
-Definition spec_b (k : kind) (pp : bool) (line stream : str) (cwait : bool) (ce : cend) (ut : utrig)
-    (reply : str) (ue : uend) (o_up o_cl : str) : bool :=
+Definition spec_b (k : kind) (pp : bool) (line stream : str) (fin : N) (cw_in cwait : bool) (ce : cend) (ut : utrig)
+    (reply : str) (ue : uend) (o_up o_cl : str) (o_ended o_eof : bool) : bool :=
   if negb (tunnelled k stream reply) then true
-  else spec_core (spec_upstream k pp line stream) reply cwait ce ut ue o_up o_cl.
+  else spec_core (spec_upstream k pp line stream) reply cw_in (1 <? fin) cwait ce ut ue o_up o_cl o_ended o_eof.
 
 (* an observation lies within an expectation: a prefix of the full stream with a length in [lo, hi] *)
 Definition within (obs full : str) (lo hi : N) : bool :=
   is_prefix obs full && (lo <=? nlen' obs) && (nlen' obs <=? hi).
 
-(* the one scenario family in which the kernel decides whether the FINISHER's own bytes survive:
-   the client closes without waiting while reply bytes may still be unread in the proxy's
-   upstream socket; the close then resets that connection (see F-C09-2 for the half-closing
-   variant, which is a finding region).  Not generated by the correspondence run. *)
-Definition race_close_unread_reply (up : str) (cwait : bool) (ce : cend) (ut : utrig) : bool :=
-  match ce with
-  | CClose => negb cwait && match ut with UAtConnect => true | UAfterBytes n => n <=? nlen' up | UOnEOF => false end
-  | _ => false
-  end.
-
 (* ---------- the finding regions ---------- *)
 (* F-C09-1 (bytes stuck in the bufio.Reader) was repaired by c17abb6: no region *)
-(* F-C09-2: the client half-closes without first waiting for the reply *)
-Definition region_half_close (cwait : bool) (ce : cend) : bool :=
-  match ce with CHalf => negb cwait | _ => false end.
+(* F-C09-2 (a half-closing client lost the reply; first EOF closed both connections) was
+   repaired by e0f2d05: no region *)
+(* F-C09-5: the upstream half-closes while client bytes are still on their way and the client
+   connection cannot be closed for writing only (tunnel.go closeWrite -> io.EOF): the tunnel
+   ends at once and the rest of the client's stream is not delivered although the upstream
+   still reads.  (proxy/tcp/server.go wraps every accepted connection in a type without
+   CloseWrite.) *)
+Definition region_upstream_half_close (up : str) (cw_in : bool) (ut : utrig) (ue : uend) : bool :=
+  match ue with
+  | UHalf => negb cw_in && match ut with
+                           | UAtConnect => negb (nlen' up =? 0)
+                           | UAfterBytes n => n <? nlen' up
+                           | UOnEOF => false
+                           end
+  | _ => false
+  end.
 (* F-C09-3 (a 101 reply split inside its first 12 bytes) was repaired by 9c9f13b: no region *)
 (* F-C09-4 (tcp-dynamic ignored pxyproto=true) was repaired by 341d532: no region *)
